@@ -83,6 +83,49 @@ func Corpus() []CorpusCase {
 	add("outside-oneof-required-member", "foo.v1", file(foo, "a", oneofEl(&Property{Name: "a", Required: true, F: str("string")}, prop("b", str("string")))))
 	add("outside-oneof-map-member", "foo.v1", file(foo, "a", oneofEl(prop("a", &Field{Kind: "map", Item: str("string")}), prop("b", str("string")))))
 	add("outside-empty-oneof", "foo.v1", file(foo, "a", oneofEl()))
+	// outside the language, rejected by the compiler (protocompile: symbol already defined): two
+	// declarations that generate the same proto symbol
+	svc := func(name string, methods ...string) *Element {
+		s := &Service{Name: name}
+		for _, m := range methods {
+			s.Methods = append(s.Methods, &Method{Name: m, Verb: "POST", Path: "/" + name + "/" + m, Request: []*Property{prop("x", str("string"))}})
+		}
+		return &Element{Kind: "service", Service: s}
+	}
+	enumEl := func(name, prefix string, opts ...string) *Element {
+		return &Element{Kind: "enum", N: &Nested{Kind: "enum", Name: name, Enum: &Enum{Name: name, Prefix: prefix, Opts: opts}}}
+	}
+	pub := func(name string, msgs ...string) *Element {
+		t := &Topic{Kind: "publish", Name: name}
+		for _, m := range msgs {
+			t.Msgs = append(t.Msgs, &Tmsg{Name: sp(m), Fields: []*Property{prop("x", str("string"))}})
+		}
+		return &Element{Kind: "topic", Topic: t}
+	}
+	inlineEnum := func(name, prefix string, opts ...string) *Field {
+		return &Field{Kind: "enuminline", Enum: &Enum{Name: name, Prefix: prefix, Opts: opts}}
+	}
+	add("outside-dup-method-two-services", "foo.v1", file(foo, "a", svc("A", "Get"), svc("B", "Get")))
+	add("outside-dup-method-two-files", "foo.v1", file(foo, "a", svc("A", "Get")), file(foo, "b", svc("B", "Get")))
+	add("outside-dup-service", "foo.v1", file(foo, "a", svc("A", "Get"), svc("A", "Put")))
+	add("outside-dup-service-two-files", "foo.v1", file(foo, "a", svc("A", "Get")), file(foo, "b", svc("A", "Put")))
+	add("outside-dup-topic", "foo.v1", file(foo, "a", pub("Foo", "One"), pub("Foo", "Two")))
+	add("outside-dup-topic-message", "foo.v1", file(foo, "a", pub("Foo", "One"), pub("Bar", "One")))
+	add("outside-dup-topic-reqres-publish", "foo.v1", file(foo, "a",
+		&Element{Kind: "topic", Topic: &Topic{Kind: "reqres", Name: "Foo",
+			Req:   []*Tmsg{{Fields: []*Property{prop("x", str("string"))}}},
+			Reply: []*Tmsg{{Fields: []*Property{prop("y", str("string"))}}}}},
+		pub("FooRequest", "Other")))
+	add("outside-dup-enum-value-siblings", "foo.v1", file(foo, "a", enumEl("A", "X_", "ONE"), enumEl("B", "X_", "ONE")))
+	add("outside-dup-enum-value-two-files", "foo.v1", file(foo, "a", enumEl("A", "X_", "ONE")), file(foo, "b", enumEl("B", "X_", "TWO")))
+	add("outside-dup-enum-value-implicit-zero", "foo.v1", file(foo, "a", enumEl("A", "", "ONE", "UNSPECIFIED")))
+	add("outside-dup-enum-value-prefixed-twice", "foo.v1", file(foo, "a", enumEl("A", "", "ONE", "A_ONE")))
+	add("outside-dup-enum-value-inline-siblings", "foo.v1", file(foo, "a",
+		object("Foo", prop("a", inlineEnum("", "X_", "ONE")), prop("b", inlineEnum("", "X_", "ONE")))))
+	add("outside-dup-enum-value-vs-type", "foo.v1", file(foo, "a", enumEl("A", "F", "OO"), object("FOO")))
+	add("outside-subpackage-vs-package", "foo.v1",
+		file(foo, "a", svc("A", "Get")),
+		&File{Dir: []string{"foo", "v1", "service"}, Base: "b", Elements: []*Element{object("GetRequest", prop("x", str("string")))}})
 	for i := range out {
 		if len(out[i].Name) > 8 && out[i].Name[:8] == "outside-" {
 			out[i].Outside = true
@@ -95,6 +138,13 @@ type EditPair struct {
 	Before, After *Bundle
 	Pkg           string
 	Edits         []EditRec
+	// KnownNoEmbed: the pair of a known finding - the old descriptors do NOT embed into the new ones
+	KnownNoEmbed bool
+}
+
+func emptyEnum(opts ...string) *Bundle {
+	return &Bundle{Files: []*File{file([]string{"foo", "v1"}, "a",
+		&Element{Kind: "enum", N: &Nested{Kind: "enum", Name: "Status", Enum: &Enum{Name: "Status", Opts: opts}}})}}
 }
 
 // EditCorpus: hand-written before/after pairs for C13.
@@ -105,11 +155,18 @@ func EditCorpus() []EditPair {
 		return &Bundle{Files: []*File{file(foo, "a", object("Foo", append(ps, extra...)...),
 			&Element{Kind: "enum", N: &Nested{Kind: "enum", Name: "Status", Enum: &Enum{Name: "Status", Opts: []string{"ACTIVE"}}}})}}
 	}
-	plain := mk(prop("age", &Field{Kind: "scalar", Scalar: &Scalar{Kind: "integer", Fmt: "INT32"}}))
+	age := prop("age", &Field{Kind: "scalar", Scalar: &Scalar{Kind: "integer", Fmt: "INT32"}})
+	plain := mk(age)
 	plain.Files[0].Elements[1].N.Enum.Opts = []string{"ACTIVE", "INACTIVE"}
+	fooP := prop("foo", obj())
 	return []EditPair{
-		{mk(), plain, "foo.v1", []EditRec{{"field", "foo/v1/a.j5s:Foo", "age scalar"}, {"option", "foo/v1/a.j5s:Status", "INACTIVE"}}},
+		{mk(), plain, "foo.v1", []EditRec{{"field", "foo/v1/a.j5s:Foo", "age scalar", "EAppendField 0 0 " + age.Coq()},
+			{"option", "foo/v1/a.j5s:Status", "INACTIVE", "EAppendOption 0 1 " + S("INACTIVE")}}, false},
 		// defect: the appended inline type Foo.Foo captures the relative name Foo.X of the existing field
-		{mk(), mk(prop("foo", obj())), "foo.v1", []EditRec{{"field", "foo/v1/a.j5s:Foo", "foo objinline"}}},
+		{mk(), mk(fooP), "foo.v1", []EditRec{{"field", "foo/v1/a.j5s:Foo", "foo objinline", "EAppendIn 0 0 AtDecl [] (AField " + fooP.Coq() + ")"}}, false},
+		// known finding: an enum without options; the appended option is its first, ends in UNSPECIFIED
+		// and therefore replaces the implicit zero value STATUS_UNSPECIFIED by STATUS_OLD_UNSPECIFIED
+		{emptyEnum(), emptyEnum("OLD_UNSPECIFIED"), "foo.v1",
+			[]EditRec{{"option", "foo/v1/a.j5s:Status", "OLD_UNSPECIFIED", "EAppendOption 0 0 " + S("OLD_UNSPECIFIED")}}, true},
 	}
 }
